@@ -267,6 +267,19 @@ def main(tier, replay):
     if tier == "quick" and len(cases) > 1200:
         rng.shuffle(cases)
         cases = cases[:1200]
+    # always present: the single prewrite request of a one-region transaction meets a split (before it is delivered / after it
+    # was applied with the answer lost) and is re-split into several requests: 1PC must be given up, async commit kept
+    for sh in shapes6():
+        if sh["splits"] or len(sh["keys"]) < 2:
+            continue
+        for mode in ("1pc", "async1pc", "async"):
+            for pess in (False, True):
+                if mode != "1pc" and "lock" in txnlab.expected_mutations({"ops": sh["ops"], "pessimistic": pess}).values():
+                    continue
+                kk = sh["keys"][1 + (len(cases) % (len(sh["keys"]) - 1))]
+                cases.append(txnlab.mk_scenario(f"{sh['name']}-{mode}-{'p' if pess else 'o'}-d0-split@{kk}", sh, mode, pess, extras=[{"at": 0, "what": "split", "k": kk}]))
+                cases.append(txnlab.mk_scenario(f"{sh['name']}-{mode}-{'p' if pess else 'o'}-d0-dropresp+aftersplit@{kk}", sh, mode, pess,
+                                                faults=[{"at": 0, "kind": "dropresp"}], extras=[{"at": 0, "what": "after:split", "k": kk}]))
     # heart-beat scenarios: pessimistic transaction kept open, small managed ttl
     hb = []
     for i in range(6 if tier == "quick" else 30):
